@@ -30,9 +30,13 @@ let blk (n : Big_int_Z.big_int) (h : Big_int_Z.big_int list) (x : Big_int_Z.big_
   | Some Raw -> None
   | Some (Comp c) ->
     hist_lens := List.length h :: !hist_lens;
-    (match decode_map h c with
-     | Some (e, y) when y = x -> if not e then bad_strict := i :: !bad_strict
-     | _ -> bad_spec := i :: !bad_spec; bad_strict := i :: !bad_strict);
+    (* spec_decode_fast and strict_valid_fast in one pass: strict_valid_fast = end_ok && spec_decode_fast *)
+    (match parse_block c with
+     | Some (ss, last) ->
+       (match run_seqs_fast h ss last with
+        | Some y when y = x -> if not (end_ok ss last) then bad_strict := i :: !bad_strict
+        | _ -> bad_spec := i :: !bad_spec; bad_strict := i :: !bad_strict)
+     | None -> bad_spec := i :: !bad_spec; bad_strict := i :: !bad_strict);
     Some c
 
 let push_tape (items : string list) =
@@ -89,20 +93,17 @@ let show_desc (d : fdesc) =
     d.f_indep d.f_bcrc (o d.f_csize) d.f_ccrc (o d.f_dictid) (zstr d.f_bsid)
 
 let () =
-  (* the list-based reference versions, for cross-checking the map-based judge *)
-  reg "specdec_ref" (function [h; b] -> show_opt (Lz4v.spec_decode_fast (bytes_of_hex h) (bytes_of_hex b)) | _ -> "badargs");
-  reg "strict_ref" (function [h; b] -> show_opt (Lz4v.strict_valid_fast (bytes_of_hex h) (bytes_of_hex b)) | _ -> "badargs");
-  reg "specdec" (function [h; b] -> show_opt (spec_decode_map (bytes_of_hex h) (bytes_of_hex b)) | _ -> "badargs");
-  reg "strict" (function [h; b] -> show_opt (strict_valid_map (bytes_of_hex h) (bytes_of_hex b)) | _ -> "badargs");
+  reg "specdec" (function [h; b] -> show_opt (spec_decode_fast (bytes_of_hex h) (bytes_of_hex b)) | _ -> "badargs");
+  reg "strict" (function [h; b] -> show_opt (strict_valid_fast (bytes_of_hex h) (bytes_of_hex b)) | _ -> "badargs");
   reg "xxh32" (function [seed; b] -> zstr (xxh32 (zs seed) (bytes_of_hex b)) | _ -> "badargs");
   reg "frame" (function [strict; skip; d; b] ->
-      let bdec = if strict = "1" then strict_valid_map else spec_decode_map in
+      let bdec = if strict = "1" then strict_valid_fast else spec_decode_fast in
       (match frame_decode bdec (skip = "1") (bytes_of_hex d) (bytes_of_hex b) with
        | None -> "none"
        | Some (c, rest) -> Printf.sprintf "ok %s rest=%d" (show_bytes c) (List.length rest))
     | _ -> "badargs");
   reg "audit" (function [strict; d; b] ->
-      let bdec = if strict = "1" then strict_valid_map else spec_decode_map in
+      let bdec = if strict = "1" then strict_valid_fast else spec_decode_fast in
       (match frame_audit bdec (bytes_of_hex d) (bytes_of_hex b) with
        | None -> "none"
        | Some (((desc, c), rest), nb) ->
